@@ -589,6 +589,26 @@ def _forms_equal(a, b, sub, assume):
     return True, None, None, None
 
 
+def _single_generic_decision(run):
+    """the path took exactly one stream-dependent decision and it compares two affine forms that are not the same form: both outcomes
+    are then taken by some stream (the set where two different linear forms agree, or are ordered either way, is not empty), so
+    whatever the path computes is computed for some stream"""
+    if len(run.dd) != 1 or run.dd[0][0] is None:
+        return False
+    op, a, b = run.dd[0][0]
+    if not (isinstance(a, Aff) and isinstance(b, Aff)):
+        return False
+    ca = a.co if a.lin else {}
+    cb = b.co if b.lin else {}
+    if ca is None or cb is None:
+        return False
+    diff = False
+    for atom in set(ca) | set(cb):
+        if not ca.get(atom, ZERO).eq(cb.get(atom, ZERO)):
+            diff = True
+    return diff and a.c.eq(b.c)
+
+
 def rule_L04_recurrences(ctx):
     m = Model(ctx.facts())
     f = m.f
@@ -644,7 +664,7 @@ def rule_L04_recurrences(ctx):
                         sub, infeasible = _apply_assumptions(crun.assume + run.assume)
                         if infeasible is True:
                             continue
-                        if run.data_dependent:
+                        if run.data_dependent and not _single_generic_decision(run):
                             raise Abstain('data-dependent path')
                         assume = crun.assume + run.assume
                         new = {'/'.join(p): x for p, x in leaves(args[0].get()) if isinstance(x, Aff) and x.lin}
